@@ -324,7 +324,9 @@ def run(st, tier, seed):
                                            "sig": "C09:arity:nested", "cmd": "pepper-compiler Wrap"})
             # the same for the PORT lists of the instance: one signal too few / too many on the input side only, or on the output side only
             for what_, ins_, outs_ in (("one input fewer", sigs[:n_in][:-1], sigs[n_in:]), ("one output fewer", sigs[:n_in], sigs[n_in:][:-1]),
-                                       ("one input more", sigs[:n_in] + ["qx"], sigs[n_in:]), ("one output more", sigs[:n_in], sigs[n_in:] + ["qx"])):
+                                       ("one input more", sigs[:n_in] + ["qx"], sigs[n_in:]), ("one output more", sigs[:n_in], sigs[n_in:] + ["qx"]),
+                                       ("arrow shifted left", sigs[:n_in][:-1], sigs[:n_in][-1:] + sigs[n_in:]),
+                                       ("arrow shifted right", sigs[:n_in] + sigs[n_in:][:1], sigs[n_in:][1:])):
                 if (ins_, outs_) == (sigs[:n_in], sigs[n_in:]):
                     continue      # nothing to take away on that side
                 wtext = "declare system Wrap: ->\nimport %s\ncomponent w = %s(1, 2): %s -> %s\n" % (b.entry, b.entry, " + ".join(ins_), " + ".join(outs_))
